@@ -273,3 +273,12 @@ Proof.
       apply IH. pose proof (depth_kid t k (nth_error_In _ _ Hn)). lia.
     + cbn [follows]. eapply find_child_none; eauto.
 Qed.
+
+(* the subtractions of FindPath::next never underflow: the child descended into contains the position *)
+Theorem find_path_chk_ok : forall fuel t r c, find_path_chk fuel t r c = Ok (find_path fuel t r c).
+Proof.
+  induction fuel as [|f IH]; intros t r c; cbn [find_path_chk find_path]; [reflexivity|].
+  destruct (find_child (l_kids t) 0 r c) as [[i k]|] eqn:Ef; [|reflexivity].
+  destruct (find_child_spec _ _ _ _ _ _ Ef) as (_ & _ & (A & _ & B & _) & _).
+  rewrite !usub_ok by assumption. cbn [bind]. rewrite IH. reflexivity.
+Qed.
